@@ -968,7 +968,7 @@ class Program:
 
     def find_fns(self, pattern):
         rx = re.compile(pattern)
-        return [f for k, f in sorted(self.fns.items()) if rx.search(k)]
+        return [self.fns[k] for k, f in sorted(self.fns.items()) if rx.search(k)]     # lookups by name: inlined views when on
 
     def methods_of(self, adt):
         return [f for f in self.fns.values() if f.impl_adt == adt and f.kind == "assoc"]
